@@ -159,6 +159,8 @@ def jobs(tier):
     out = []
     for nr, nc in ([(2, 3), (3, 2)] if tier == 'quick' else [(2, 3), (3, 2), (3, 3)]):
         for ax in ('sample', 'observation'):
+            if tier == 'quick' and (nr if ax == 'observation' else nc) < 3:
+                continue
             for wm in (True, False):
                 out.append(('hdf5', (nr, nc, ax, wm)))
                 out.append(('hdf5_unknown', (nr, nc, ax, wm)))
@@ -176,7 +178,7 @@ MANIFEST = {
     'technique': 'symbolic execution of the real source with z3 (SX: HDF5 / JSON subset reads over the h5py model) + CrossHair over selector-encoded serialisations and ID subsets for the raw-text JSON slicer',
 }
 
-OPTS = {'quick': {'time_budget': 60}, 'thorough': {'time_budget': 900}}
+OPTS = {'quick': {'time_budget': 45}, 'thorough': {'time_budget': 900}}
 
 META = {
     'explanation': "C14: (SX) Table.from_hdf5(ids=..., axis, subset_with_metadata) on stores written by the real to_hdf5 into the h5py model, for every "
